@@ -160,6 +160,8 @@ func doRenew3(tr *vhlib.Trace, e, f rv, rk int, base, risk types.Currency, h uin
 	emit(tr, "renew3", fmt.Sprintf("%s %s rk=%d base=%s risk=%s h=%d %s", e.enc("e"), f.enc("f"), rk, fmtCur(base), fmtCur(risk), h, s.enc()), res, extra, err)
 }
 
+func decDyn(p vhlib.ParsedLine) dyn { return dyn{dh1: p.U64("dh1"), dh2: p.U64("dh2"), sc: p.Int("sc")} }
+
 // replayOp re-executes the op half of one protocol line.
 func replayOp(tr *vhlib.Trace, p vhlib.ParsedLine) {
 	rk := p.Int("rk") & 1
@@ -193,10 +195,10 @@ func replayOp(tr *vhlib.Trace, p vhlib.ParsedLine) {
 	case "signsites":
 		doSignSites(tr)
 	case "rpcform2":
-		doRPCForm2(tr, decRev(p, "f"), rk, p.U64("h"), p.U64("rh"), decSt(p), p.Int("bs"))
+		doRPCForm2(tr, decRev(p, "f"), rk, p.U64("h"), p.U64("rh"), decSt(p), p.Int("bs"), decDyn(p))
 	case "rpcrenew2":
-		doRPCRenew2(tr, decRev(p, "e"), decRev(p, "f"), decCurs(p, "fv"), rk, p.U64("h"), p.U64("rh"), decSt(p), p.Int("bs"))
+		doRPCRenew2(tr, decRev(p, "e"), decRev(p, "f"), decCurs(p, "fv"), rk, p.U64("h"), p.U64("rh"), decSt(p), p.Int("bs"), decDyn(p))
 	case "rpcrenew3":
-		doRPCRenew3(tr, decRev(p, "e"), decRev(p, "k"), decRev(p, "f"), rk, p.U64("h"), p.U64("rh"), decSt(p), p.Int("bs"))
+		doRPCRenew3(tr, decRev(p, "e"), decRev(p, "k"), decRev(p, "f"), rk, p.U64("h"), p.U64("rh"), decSt(p), p.Int("bs"), decDyn(p))
 	}
 }
